@@ -187,3 +187,29 @@ def run_is_valid_cer(expr):
         _BODY.set(schema.dump(cer))
 
     return I.run(I.is_valid_expression(expr, setter), I.Env())
+
+
+_VERSION_NOW = [None]
+
+
+def run_versions(make_coro, rc_by_version, sequence, hints=None):
+    """ONE token logic provider holding user-style RC evaluators for two format versions of the same format (answers
+    rc_by_version[0] / [1]); the evaluations of `sequence` (version indices) run one after another, the evaluatable data
+    handed out by the injected provider carries the version of the evaluation.  returns the list of results"""
+    from efoli import EdifactFormatVersion
+
+    versions = [EdifactFormatVersion.FV2104, EdifactFormatVersion.FV2210]
+    evaluators = []
+    for v in (0, 1):
+        rc_cls, fc_cls = _method_based(list(rc_by_version[v].keys()), [])
+        rc = rc_cls(dict(rc_by_version[v]))
+        rc.edifact_format_version = versions[v]
+        hp = DictBasedHintsProvider(dict(hints or {}))
+        hp.edifact_format, hp.edifact_format_version = I.FMT, versions[v]
+        evaluators += [rc, hp]
+    _configure(evaluators, lambda: EvaluatableData(body=None, edifact_format=I.FMT, edifact_format_version=_VERSION_NOW[0]))
+    out = []
+    for v in sequence:
+        _VERSION_NOW[0] = versions[v]
+        out.append(I.try_call(lambda: I.run(make_coro(), I.Env())))
+    return out
